@@ -17,7 +17,8 @@ Everything here is re-derived from the Python AST on every run and fails closed
 2. Def-use facts of the two derivative branches: for each mode and each of dTemperaturedChi,
    dvdChi, dMsqdChi, the background profiles it is computed from and whether the chain
    passes through a derivative operator (`.derivative(...)`, findiff.FinDiff).
-3. Aliasing facts of EOM.getBoltzmannFiniteDifference (how the solver it mutates was
+3. Aliasing facts of BoltzmannSolver.setBackground (copy kind, which object is boosted) and
+   of EOM.getBoltzmannFiniteDifference (how the solver it mutates was
    obtained from self.boltzmannSolver, which mutations it performs) and of
    CollisionArray.changeBasis (in place or not).
 """
@@ -663,6 +664,73 @@ def fd_copy_facts(eom_src, coll_src):
                 cb_span=(cb.lineno, cb.end_lineno, pyrx._sha(ast.unparse(cb))))
 
 
+
+def background_facts(boltz_src, cont_src):
+    """how BoltzmannSolver.setBackground stores the caller's background and on which object it
+    calls boostToPlasmaFrame; whether BoltzmannBackground.boostToPlasmaFrame only rebinds
+    attributes (no in-place array update)"""
+    fn = None
+    for n in ast.walk(ast.parse(boltz_src)):
+        if isinstance(n, ast.FunctionDef) and n.name == "setBackground":
+            fn = n
+    if fn is None:
+        raise TranslateError("BoltzmannSolver.setBackground not found")
+    params = [a.arg for a in fn.args.args]
+    if len(params) != 2:
+        raise TranslateError("setBackground signature")
+    arg = params[1]
+    kind, target = None, None
+    for st in fn.body:
+        if isinstance(st, ast.Expr) and isinstance(st.value, ast.Constant):
+            continue
+        if isinstance(st, ast.Assign) and len(st.targets) == 1 and \
+                ast.unparse(st.targets[0]) == "self.background" and kind is None:
+            v = ast.unparse(st.value)
+            if v in ("deepcopy(%s)" % arg, "copy.deepcopy(%s)" % arg):
+                kind = "Deep"
+            elif v in ("copy(%s)" % arg, "copy.copy(%s)" % arg):
+                kind = "Shallow"
+            elif v == arg:
+                kind = "Alias"
+            else:
+                raise TranslateError("setBackground stores %s (line %d)" % (v[:40], st.lineno))
+            continue
+        if isinstance(st, ast.Expr) and isinstance(st.value, ast.Call) and \
+                isinstance(st.value.func, ast.Attribute) and \
+                st.value.func.attr == "boostToPlasmaFrame" and target is None:
+            recv = ast.unparse(st.value.func.value)
+            if recv == "self.background" and kind is not None:
+                target = "Wcopy"
+            elif recv == arg:
+                target = "Wowner"
+            else:
+                raise TranslateError("boostToPlasmaFrame called on %s (line %d)" % (
+                    recv, st.lineno))
+            continue
+        raise TranslateError("setBackground: statement (line %d)" % st.lineno)
+    if kind is None or target is None:
+        raise TranslateError("setBackground must store the background and boost it")
+    bf = None
+    for n in ast.walk(ast.parse(cont_src)):
+        if isinstance(n, ast.ClassDef) and n.name == "BoltzmannBackground":
+            for f in n.body:
+                if isinstance(f, ast.FunctionDef) and f.name == "boostToPlasmaFrame":
+                    bf = f
+    if bf is None:
+        raise TranslateError("BoltzmannBackground.boostToPlasmaFrame not found")
+    rebinds = True
+    for st in bf.body:
+        if isinstance(st, ast.Expr) and isinstance(st.value, ast.Constant):
+            continue
+        if isinstance(st, ast.Assign) and len(st.targets) == 1 and \
+                isinstance(st.targets[0], ast.Attribute) and \
+                ast.unparse(st.targets[0].value) == "self":
+            continue
+        rebinds = False
+    return dict(kind=kind, target=target, rebinds=rebinds,
+                span=(fn.lineno, fn.end_lineno, pyrx._sha(ast.unparse(fn))),
+                bspan=(bf.lineno, bf.end_lineno, pyrx._sha(ast.unparse(bf))))
+
 # ------------------------------------------------------------------------------------
 
 PRELUDE = """From Coq Require Import Reals List Bool.
@@ -672,11 +740,12 @@ Local Open Scope R_scope.
 """
 
 
-def generate(boltz_src, eom_src, coll_src):
+def generate(boltz_src, eom_src, coll_src, cont_src):
     tr = BoltzTranslator(boltz_src)
     deps = tr.build()
     dfacts = derivative_facts(boltz_src)
     fd = fd_copy_facts(eom_src, coll_src)
+    bg = background_facts(boltz_src, cont_src)
     out = [PRELUDE, "(* generated from src/WallGo/boltzmann.py, equationOfMotion.py, "
                     "collisionArray.py *)", tr.header()] + tr.defs
     out.append(tr.setter("coll"))
@@ -691,6 +760,14 @@ def generate(boltz_src, eom_src, coll_src):
         "(%s, %s)" % ("Wcopy" if w == "copy" else "Wowner", o) for w, o in fd["ops"]))
     out.append("Definition changeBasis_inplace : bool := %s." % (
         "true" if fd["inplace"] else "false"))
+    out.append("(* aliasing facts of BoltzmannSolver.setBackground / "
+               "BoltzmannBackground.boostToPlasmaFrame *)")
+    out.append("Definition bg_copy_kind : copykind := %s." % bg["kind"])
+    out.append("Definition bg_boost_target : who := %s." % bg["target"])
+    out.append("Definition bg_boost_rebinds : bool := %s." % ("true" if bg["rebinds"] else "false"))
+    tr.spans["setBackground"] = bg["span"]
+    tr.spans["BoltzmannBackground.boostToPlasmaFrame"] = bg["bspan"]
+    tr.bg = bg
     tr.spans["getBoltzmannFiniteDifference"] = fd["span"]
     tr.spans["CollisionArray.changeBasis"] = fd["cb_span"]
     tr.deps_out = deps
@@ -703,6 +780,6 @@ if __name__ == "__main__":
     import sys
     import vlib
     text, tr = generate(vlib.read_src("boltzmann.py"), vlib.read_src("equationOfMotion.py"),
-                        vlib.read_src("collisionArray.py"))
+                        vlib.read_src("collisionArray.py"), vlib.read_src("containers.py"))
     sys.stdout.write(text)
     print(tr.deps_out, file=sys.stderr)
